@@ -37,6 +37,8 @@ type Target struct {
 	Pkg  string `json:"pkg"`  // directory relative to the repository root
 	Recv string `json:"recv"` // receiver type name, empty for a plain function
 	Func string `json:"func"`
+	// Opaque: not translated; a call becomes a field of the package's generated Ext structure
+	Opaque bool `json:"opaque"`
 }
 
 type pkgInfo struct {
@@ -110,6 +112,8 @@ type fnDecl struct {
 	mutating bool // pointer receiver written through
 	usesExt  bool
 	usesExtLoop bool
+	opaque   bool   // external: calls go through <pkg>.Ext
+	usesX    string // package whose Ext structure the function takes ("" = none)
 	leanName string
 	out      string // Lean source
 	deps     []string
@@ -154,7 +158,7 @@ func leanType(n ast.Node, t types.Type) string {
 			return "UInt32"
 		case types.Uint64:
 			return "UInt64"
-		case types.Int, types.UntypedInt:
+		case types.Int, types.UntypedInt, types.Int64:
 			return "Int"
 		case types.Bool, types.UntypedBool:
 			return "Bool"
@@ -174,6 +178,12 @@ func leanType(n ast.Node, t types.Type) string {
 		}
 		if obj.Pkg() != nil && obj.Pkg().Path() == "encoding/pem" && obj.Name() == "Block" {
 			return "PemBlock"
+		}
+		if obj.Pkg() != nil && obj.Pkg().Path() == "math/big" && obj.Name() == "Int" {
+			return "Int"
+		}
+		if obj.Pkg() != nil && obj.Pkg().Path() == "crypto/x509" && obj.Name() == "Certificate" {
+			return "X509Cert"
 		}
 		if _, ok := byTypes[obj.Pkg().Path()]; !ok {
 			fail(n, "type %s from a package that is not translated", tt.String())
@@ -201,11 +211,26 @@ func ensureStruct(n ast.Node, nm string, s *types.Struct) {
 	fmt.Fprintf(&b, "structure %s where\n", nm)
 	for i := 0; i < s.NumFields(); i++ {
 		f := s.Field(i)
-		fmt.Fprintf(&b, "  %s : %s\n", lname(f.Name()), leanType(n, f.Type()))
+		fmt.Fprintf(&b, "  %s : %s\n", lname(f.Name()), fieldType(n, f.Type()))
 	}
 	b.WriteString("deriving DecidableEq, Repr\n")
 	structs[nm] = b.String()
 	structOrd = append(structOrd, nm)
+}
+
+// fieldType: like leanType, but a field of a type outside the supported subset is kept as `Opaque`
+// (a function that reads such a field is then untranslatable, one that ignores it is not)
+func fieldType(n ast.Node, t types.Type) (lt string) {
+	defer func() {
+		if r := recover(); r != nil {
+			if _, ok := r.(unsupported); ok {
+				lt = "Opaque"
+				return
+			}
+			panic(r)
+		}
+	}()
+	return leanType(n, t)
 }
 
 func ensureAbbrev(n ast.Node, nm string, u types.Type) {
@@ -822,14 +847,34 @@ func (t *fnTrans) call(c *ast.CallExpr) string {
 			return fmt.Sprintf("(%s == (some %q : GoErr))", t.expr(c.Args[0]), nm)
 		}
 	}
+	if se, ok := c.Fun.(*ast.SelectorExpr); ok && se.Sel.Name == "Cmp" && len(c.Args) == 1 {
+		if leanTypeIs(t.typeOf(se.X), "Int") && leanTypeIs(t.typeOf(c.Args[0]), "Int") {
+			return fmt.Sprintf("(intCmp %s %s)", t.expr(se.X), t.expr(c.Args[0]))
+		}
+	}
 	fd, recv := t.callee(c)
 	if fd == nil {
 		fail(c, "call of a function that is not a translation target")
+	}
+	if fd.opaque {
+		t.fd.usesX = fd.pi.short
+		parts := []string{"X." + fd.extField()}
+		if recv != nil {
+			parts = append(parts, t.expr(recv))
+		}
+		for _, a := range c.Args {
+			parts = append(parts, t.expr(a))
+		}
+		return "(" + strings.Join(parts, " ") + ")"
 	}
 	if fd.mutating {
 		fail(c, "call of the mutating method %s inside an expression", fd.leanName)
 	}
 	return t.callPure(fd, recv, c.Args)
+}
+
+func (fd *fnDecl) extField() string {
+	return strings.ReplaceAll(strings.TrimPrefix(fd.leanName, fd.pi.short+"."), ".", "_")
 }
 
 func (t *fnTrans) callPure(fd *fnDecl, recv ast.Expr, args []ast.Expr) string {
@@ -838,6 +883,10 @@ func (t *fnTrans) callPure(fd *fnDecl, recv ast.Expr, args []ast.Expr) string {
 	if fd.usesExt {
 		t.fd.usesExt = true
 		parts = append(parts, "E")
+	}
+	if fd.usesX != "" {
+		t.fd.usesX = fd.usesX
+		parts = append(parts, "X")
 	}
 	if recv != nil {
 		parts = append(parts, t.expr(recv))
@@ -1106,6 +1155,9 @@ func (t *fnTrans) mutCall(fd *fnDecl, recv ast.Expr, args []ast.Expr, tmp string
 	if fd.usesExt {
 		t.fd.usesExt = true
 		parts = append(parts, "E")
+	}
+	if fd.usesX != "" {
+		parts = append(parts, "X")
 	}
 	parts = append(parts, t.expr(recv))
 	for _, a := range args {
@@ -1610,6 +1662,9 @@ func (t *fnTrans) rangeStmt(x *ast.RangeStmt, after []ast.Stmt, c ctx) string {
 		if t.fd.usesExtLoop {
 			vs = append(vs, "E")
 		}
+		if t.fd.usesX != "" {
+			vs = append(vs, "X")
+		}
 		for _, o := range caps {
 			vs = append(vs, t.name(o))
 		}
@@ -1673,6 +1728,9 @@ func (t *fnTrans) rangeStmt(x *ast.RangeStmt, after []ast.Stmt, c ctx) string {
 	fmt.Fprintf(&hb, "def %s", loopName)
 	if t.fd.usesExtLoop {
 		hb.WriteString(" (E : Ext)")
+	}
+	if t.fd.usesX != "" {
+		fmt.Fprintf(&hb, " (X : %s.Ext)", t.fd.usesX)
 	}
 	for _, o := range caps {
 		fmt.Fprintf(&hb, " (%s : %s)", t.name(o), leanType(x, o.Type()))
@@ -1870,6 +1928,33 @@ func computeUsesExt() {
 	}
 }
 
+func computeUsesX() {
+	changed := true
+	for changed {
+		changed = false
+		for _, fd := range targets {
+			if fd.usesX != "" || fd.opaque {
+				continue
+			}
+			ast.Inspect(fd.decl.Body, func(n ast.Node) bool {
+				if c, ok := n.(*ast.CallExpr); ok {
+					t := &fnTrans{fd: fd, pi: fd.pi}
+					if cd, _ := t.callee(c); cd != nil {
+						if cd.opaque && fd.usesX == "" {
+							fd.usesX = cd.pi.short
+							changed = true
+						} else if cd.usesX != "" && fd.usesX == "" {
+							fd.usesX = cd.usesX
+							changed = true
+						}
+					}
+				}
+				return true
+			})
+		}
+	}
+}
+
 func translate(fd *fnDecl) {
 	defer func() {
 		if r := recover(); r != nil {
@@ -1886,6 +1971,9 @@ func translate(fd *fnDecl) {
 	var params []string
 	if fd.usesExt {
 		params = append(params, "(E : Ext)")
+	}
+	if fd.usesX != "" {
+		params = append(params, fmt.Sprintf("(X : %s.Ext)", fd.usesX))
 	}
 	if fd.decl.Recv != nil {
 		if len(fd.decl.Recv.List[0].Names) > 0 {
@@ -1944,6 +2032,46 @@ func translate(fd *fnDecl) {
 
 var repoRoot string
 
+// extStructs: one `<pkg>.Ext` structure per package with opaque targets (functions that are not translated:
+// cryptography, parsers); a field per function, typed from its Go signature
+func extStructs() string {
+	byPkg := map[string][]*fnDecl{}
+	var pk []string
+	for _, fd := range targets {
+		if fd.opaque {
+			if _, ok := byPkg[fd.pi.short]; !ok {
+				pk = append(pk, fd.pi.short)
+			}
+			byPkg[fd.pi.short] = append(byPkg[fd.pi.short], fd)
+		}
+	}
+	var b strings.Builder
+	for _, p := range pk {
+		fmt.Fprintf(&b, "/-- functions of package %s that are not translated (external behaviour, a parameter of the translated code) -/\nstructure %s.Ext where\n", p, p)
+		for _, fd := range byPkg[p] {
+			sig := fd.obj.Type().(*types.Signature)
+			var tys []string
+			if sig.Recv() != nil {
+				tys = append(tys, leanType(fd.decl, sig.Recv().Type()))
+			}
+			for i := 0; i < sig.Params().Len(); i++ {
+				tys = append(tys, leanType(fd.decl, sig.Params().At(i).Type()))
+			}
+			var rs []string
+			for i := 0; i < sig.Results().Len(); i++ {
+				rs = append(rs, leanType(fd.decl, sig.Results().At(i).Type()))
+			}
+			res := "Unit"
+			if len(rs) > 0 {
+				res = strings.Join(rs, " × ")
+			}
+			fmt.Fprintf(&b, "  %s : %s\n", fd.extField(), strings.Join(append(tys, res), " → "))
+		}
+		b.WriteString("\n")
+	}
+	return b.String()
+}
+
 func main() {
 	repo := flag.String("repo", "/repo", "repository root")
 	tfile := flag.String("targets", "targets.json", "list of functions to translate")
@@ -1999,13 +2127,17 @@ func main() {
 			continue
 		}
 		obj := pi.info.Defs[found.Name].(*types.Func)
-		fd := &fnDecl{key: fnKey{tg.Pkg, tg.Recv, tg.Func}, pi: pi, decl: found, obj: obj, leanName: nm}
+		fd := &fnDecl{key: fnKey{tg.Pkg, tg.Recv, tg.Func}, pi: pi, decl: found, obj: obj, leanName: nm, opaque: tg.Opaque}
 		targets = append(targets, fd)
 		byObj[obj.FullName()] = fd
 	}
 	computeMutating()
 	computeUsesExt()
+	computeUsesX()
 	for _, fd := range targets {
+		if fd.opaque {
+			continue
+		}
 		translate(fd)
 		if fd.err != "" {
 			skipped = append(skipped, miss{fd.leanName, fd.err})
@@ -2060,6 +2192,7 @@ func main() {
 		b.WriteString(globals[n])
 		b.WriteString("\n")
 	}
+	b.WriteString(extStructs())
 	for _, fd := range order {
 		b.WriteString(fd.out)
 		b.WriteString("\n")
